@@ -65,6 +65,8 @@ def args_for(r, v, f_lf, f_crlf):
         args += ["-C1"]
     if v == "crlf":
         args += ["--crlf"]
+    if v == "maxctx":
+        args += ["-m1", "-A2"]
     return args + ["--replace=" + rr.tpl_bytes(r["tpl"]).decode()] + rr.opt_flags(r["o"]) + ["-e", rr.render(r["u"])] + [f_crlf if v == "crlf" else f_lf]
 
 
@@ -72,6 +74,29 @@ def judge_one(r, lines, v, rc, so, se):
     got = numbered(so)
     if rc not in (0, 1):
         return "rg failed rc=%d: %s" % (rc, se.decode("utf8", "replace")[:200])
+    if v == "maxctx":
+        # the first matching line, replaced; the two lines after it are its trailing context: one that is printed as a
+        # MATCHING line (`N:`) must be replaced too, one printed as context (`N-`) may or may not be
+        sel = [k for k, (lr, content) in enumerate(zip(r["lines"], lines), 1) if lr["sel"]]
+        if not sel:
+            return None if not got else "output %r although no line matches" % got[:2]
+        first = sel[0]
+        if not all(judged(r, lines[k - 1]) for k in range(first, min(first + 2, len(lines)) + 1)):
+            return None
+        want_first = (first, b":", rr.items_bytes(r["lines"][first - 1]["r"]))
+        if not got or got[0] != want_first:
+            return "first record %r, expected %r" % (got[:1], want_first)
+        allowed_n = list(range(first + 1, min(first + 2, len(lines)) + 1))
+        if [g[0] for g in got[1:]] != allowed_n:
+            return "records after the first match are lines %s, the trailing context is lines %s" % ([g[0] for g in got[1:]], allowed_n)
+        for n, sep, t in got[1:]:
+            lr = r["lines"][n - 1]
+            orig, repl = rr.sym_bytes(lines[n - 1]), rr.items_bytes(lr["r"])
+            if sep == b":" and (not lr["sel"] or t != repl):
+                return "line %d printed as a matching line: %r, its replace-all is %r" % (n, t, repl)
+            if sep == b"-" and t not in (orig, repl):
+                return "context line %d printed as %r" % (n, t)
+        return None
     if v == "ctx":
         # selected (non-matching) lines must be printed unaltered; context lines may or may not be replaced
         bylno = {n: (sep, t) for n, sep, t in got}
@@ -125,6 +150,8 @@ def main(tier):
                     variants += ["crlf"]
             else:
                 variants += ["ctx"]
+            if not r["o"]["inv"] and i % 2 == vlib.seed() % 2:
+                variants += ["maxctx"]        # -m1 -A2: lines that match inside the trailing context of the last counted match
             for v in variants:
                 jobs.append({"args": args_for(r, v, f_lf, f_crlf)})
                 meta.append((i, v))
@@ -152,7 +179,7 @@ def main(tier):
     return chk.finish()
 
 
-def ml_expected(inp, ms, left, right):
+def ml_expected(inp, ms, left, right, term=b"\n"):
     """-U -r: the lines covered by the matches, merged into blocks, each match replaced by left + match + right."""
     starts = [0] + [i + 1 for i, b in enumerate(inp) if b == 10 and i + 1 < len(inp)]
 
@@ -181,9 +208,25 @@ def ml_expected(inp, ms, left, right):
             pos = e0
         txt += inp[pos:be]
         if not txt.endswith(b"\n"):     # the printer terminates a record that does not end with the terminator
-            txt += b"\n"
+            txt += term
         out += txt
     return out
+
+
+def _crlf_ast(u):
+    """the pattern with every literal LF replaced by CR LF; None if the pattern touches line structure in any other way"""
+    k = u.get("k")
+    if k == "lit":
+        if u["c"] == 14:
+            return {"k": "grp", "cap": False, "a": {"k": "cat", "a": {"k": "lit", "c": 13}, "b": {"k": "lit", "c": 14}}}
+        return u
+    if k in ("cat", "alt"):
+        a, b = _crlf_ast(u["a"]), _crlf_ast(u["b"])
+        return None if a is None or b is None else dict(u, a=a, b=b)
+    if k in ("rep", "grp", "ngrp"):
+        a = _crlf_ast(u["a"])
+        return None if a is None else dict(u, a=a)
+    return None          # looks, dot, classes: their meaning depends on the terminator
 
 
 def ml_part(chk, tier):
@@ -205,16 +248,24 @@ def ml_part(chk, tier):
             args = ["--no-config", "--color", "never", "-j1", "-U", "-N", "--replace=<$0>"]
             if r["scn"]["o"]["dotall"]:
                 args.append("--multiline-dotall")
-            jobs.append({"args": args + ["-e", rr.render(r["scn"]["u"]), f], "_inp": inp, "_r": r})
+            jobs.append({"args": args + ["-e", rr.render(r["scn"]["u"]), f], "_inp": inp, "_r": r, "_ms": r["ms"], "_crlf": False})
+            # the same search on the CRLF form of the input under --crlf (pattern: LF -> CR LF), where it is well defined
+            cu = _crlf_ast(r["scn"]["u"])
+            if cu is not None and b"\n" in inp and not r["scn"]["o"]["dotall"]:
+                cinp = inp.replace(b"\n", b"\r\n")
+                shift = lambda pos: pos + inp[:pos].count(b"\n")
+                f2 = sc.write("c%d/f%d" % (k % 50, k), cinp)
+                jobs.append({"args": ["--no-config", "--color", "never", "-j1", "-U", "-N", "--crlf", "--replace=<$0>", "-e", rr.render(cu), f2],
+                             "_inp": cinp, "_r": r, "_ms": [[shift(a), shift(b)] for a, b in r["ms"]], "_crlf": True})
         outs = rgrun.run_many(jobs)
         chk.evaluations += len(jobs)
         for j, (rc, so, se) in zip(jobs, outs):
             r = j["_r"]
-            exp = ml_expected(j["_inp"], r["ms"], b"<", b">")
+            exp = ml_expected(j["_inp"], j["_ms"], b"<", b">", b"\r\n" if j["_crlf"] else b"\n")
             if so != exp or rc != 0:
-                chk.violation({"variant": "ml_replace", "pattern": rr.render(r["scn"]["u"]), "opts": sorted(k for k, v in r["scn"]["o"].items() if v)},
+                chk.violation({"variant": "ml_replace_crlf" if j["_crlf"] else "ml_replace", "pattern": rr.render(r["scn"]["u"]), "opts": sorted(k for k, v in r["scn"]["o"].items() if v)},
                               {"why": {"got": repr(so), "expected": repr(exp), "rc": rc}, "args": j["args"][:-1], "input": list(j["_inp"]),
-                               "matches": r["ms"]})
+                               "matches": j["_ms"], "crlf": j["_crlf"]})
             else:
                 chk.validated += 1
                 if len(r["ms"]) >= 2 or b"\n" in j["_inp"][r["ms"][0][0]:r["ms"][0][1]]:
@@ -227,7 +278,7 @@ def replay(path):
     """Re-run the recorded scenario (pattern, options, template, variant) on the recorded catalogue; the expectation is the
     one TLC computed when the replay file was written."""
     rec = json.load(open(path))
-    if rec["sig"].get("variant") == "ml_replace":
+    if rec["sig"].get("variant") in ("ml_replace", "ml_replace_crlf"):
         vlib.build_rg()
         sc = rgrun.Scratch("c19r")
         try:
@@ -235,7 +286,7 @@ def replay(path):
             rc, so, se = rgrun.run_many([{"args": rec["record"]["args"] + [f]}])[0]
         finally:
             sc.close()
-        exp = ml_expected(bytes(rec["record"]["input"]), rec["record"]["matches"], b"<", b">")
+        exp = ml_expected(bytes(rec["record"]["input"]), rec["record"]["matches"], b"<", b">", b"\r\n" if rec["record"].get("crlf") else b"\n")
         print(json.dumps({"args": rec["record"]["args"], "input": bytes(rec["record"]["input"]).decode("latin1"), "got": repr(so), "expected": repr(exp)}, indent=1))
         if so != exp or rc != 0:
             print("VIOLATION property=C19 replay=%s" % path)
